@@ -18,7 +18,7 @@ from ..astutil import (
     nested_functions, subscript_stores, unparse, walk_local,
 )
 from ..cfg import no_exc
-from ..report import Registry, sub
+from ..report import Registry, chain, sub
 from ._helpers_rob_i import nf
 from ._helpers_rules_c import PathSense, both, call_nodes, cut_edges, kw_or_pos, loc_of, must_pass, own_calls, test_edges
 
@@ -140,10 +140,27 @@ class _Fan:
         self.F = F = _fanout_function(ctx)
         self.g = g = ctx.cfg(F)
         loops = [n for n in g.nodes if n.kind == "for" and _last(_iter_call_name(F.node, n.stmt)) == "execute_chooser"]
-        ctx.require(len(loops) == 1, f"{F.key}: expected one `for <id> in <session>.execute_chooser(...)` loop, found {len(loops)}")
-        self.loop = loops[0]
-        ctx.require(isinstance(self.loop.stmt.target, ast.Name), "chooser loop target is not a plain name")
-        self.loopvar = self.loop.stmt.target.id
+        # the same fan-out spelt as a comprehension: `partial = [iter_for_shard(s) for s in session.execute_chooser(ctx)]`
+        comps = []
+        if not loops:
+            for n in g.nodes:
+                if n.kind != "stmt" or n.copy or not isinstance(n.stmt, ast.stmt):
+                    continue
+                for x in walk_local(n.stmt):
+                    if isinstance(x, (ast.ListComp, ast.GeneratorExp, ast.SetComp)) and x.generators \
+                            and _last(_iter_call_name(F.node, x.generators[0])) == "execute_chooser":
+                        comps.append((n, x))
+        ctx.require(len(loops) + len(comps) == 1,
+                    f"{F.key}: expected one `for <id> in <session>.execute_chooser(...)` loop (or comprehension), found {len(loops) + len(comps)}")
+        self.comp = None
+        if loops:
+            self.loop = loops[0]
+            tgt = self.loop.stmt.target
+        else:
+            self.loop, self.comp = comps[0]
+            tgt = self.comp.generators[0].target
+        ctx.require(isinstance(tgt, ast.Name), "chooser loop target is not a plain name")
+        self.loopvar = tgt.id
         # per-shard executors: nested (or module-level) functions that call <ctx>.invoke_statement
         nested = nested_functions(F.node)
         self.executors: Dict[str, ast.AST] = {}
@@ -243,12 +260,54 @@ def _coverage(expr: ast.AST, acc: str, fn=None) -> Tuple[bool, str]:
     return True, f"elements {sorted(consts)} + [{open_from}:]"
 
 
+def _r1_comprehension(ctx, fan):
+    """C53-R1 when the fan-out is a comprehension over the execute chooser (same four instances, same keys)."""
+    F, g, node, comp = fan.F, fan.g, fan.loop, fan.comp
+    gen = comp.generators[0]
+    elt_is_exec = isinstance(comp.elt, ast.Call) and fan.exec_call_of(comp.elt, fan.loopvar)
+    elt_has_exec = any(isinstance(x, ast.Call) and fan.exec_call_of(x, fan.loopvar) for x in ast.walk(comp.elt))
+    ctx.require(elt_has_exec, f"{F.key}: no per-shard execution `{'/'.join(fan.executors)}({fan.loopvar})` in the comprehension over the chooser")
+    unfiltered = len(comp.generators) == 1 and not gen.ifs
+    ctx.check(unfiltered, F.key + ":every-chosen-shard-executed",
+              "the comprehension over the execute chooser's shard ids filters some of them out: the statement is not executed on those shards "
+              "(rows of that shard are missing from the union; e.g. execute_chooser -> ['a', 'b'], rows only in 'b')",
+              f"each id -> {'/'.join(fan.executors)}({fan.loopvar})", loc_of(F, node.stmt))
+    ctx.check(elt_is_exec and isinstance(comp, ast.ListComp), F.key + ":every-partial-result-kept",
+              "the per-shard result is not what the comprehension collects (or it is collected into a set / consumed lazily): a shard's result can be dropped",
+              "the list comprehension's element is the per-shard result", loc_of(F, node.stmt))
+    ctx.ok(F.key + ":no-early-exit-from-chooser-loop", "a comprehension cannot be left before the chooser is exhausted")
+    st = node.stmt
+    acc = None
+    if isinstance(st, ast.Assign) and len(st.targets) == 1 and isinstance(st.targets[0], ast.Name) and st.value is comp:
+        acc = st.targets[0].id
+    elif isinstance(st, ast.AnnAssign) and isinstance(st.target, ast.Name) and st.value is comp:
+        acc = st.target.id
+    ctx.require(acc is not None, f"{F.key}: the comprehension over the chooser is not assigned to a local list (idiom not understood)")
+    after = [b for b, lab in g.succ[node.id] if lab != "exc"]
+    rets = [n for n in g.reachable(after, edge_ok=no_exc) if isinstance(g.nodes[n].stmt, ast.Return) and g.nodes[n].kind == "stmt"]
+    ctx.require(rets, "no return statement after the chooser comprehension")
+    bad, okd = [], []
+    for n in rets:
+        v = g.nodes[n].stmt.value
+        if v is None:
+            bad.append((n, "returns nothing"))
+            continue
+        okc, why = _coverage(v, acc, F.node)
+        (okd if okc else bad).append((n, why))
+    ctx.check(not bad, F.key + ":merged-result-covers-all-partials",
+              "the result returned after the fan-out " + "; ".join(w_ for _, w_ in bad)
+              + f" (`{unparse(g.nodes[bad[0][0]].stmt)[:100] if bad else ''}`): rows of some executed shard never reach the caller",
+              "return uses " + ", ".join(w_ for _, w_ in okd), loc_of(F, g.nodes[(bad or okd)[0][0]].stmt))
+
+
 @R.rule("C53-R1", floor=4, template="T-PATH",
         desc="fan-out: every shard id yielded by execute_chooser is executed, every partial result is kept, the loop "
              "has no early exit, and the returned result is built from all partial results")
 def r1(ctx):
     fan = _Fan(ctx)
     F, g, loop = fan.F, fan.g, fan.loop
+    if fan.comp is not None:
+        return _r1_comprehension(ctx, fan)
     body = [b for b, lab in g.succ[loop.id] if lab == "true"]
     after = [b for b, lab in g.succ[loop.id] if lab == "false"]
     ctx.require(body and after, "chooser loop has no body / no continuation in the CFG")
@@ -925,13 +984,13 @@ R.mutant("hook-ignores-bind-argument", HS,
          "C53-R3")
 # R4
 R.mutant("choose-ignores-identity-key", HS,
-         sub("            if state.key:\n                token = state.key[2]\n                assert token is not None\n                return token\n            elif state.identity_token:\n",
-             "            if state.identity_token:\n"), "C53-R4")
+         sub("            if state.key:\n                token = state.key[2]\n                assert token is not None\n                return token\n            elif state.identity_token is not None:\n",
+             "            if state.identity_token is not None:\n"), "C53-R4")
 R.mutant("choose-wrong-key-element", HS, sub("token = state.key[2]", "token = state.key[1]"), "C53-R4")
 R.mutant("choose-token-not-recorded", HS,
          sub("        if instance is not None:\n            state.identity_token = shard_id\n        return shard_id\n", "        return shard_id\n"), "C53-R4")
 R.mutant("choose-rechoose-pending", HS,
-         sub("            elif state.identity_token:\n                return state.identity_token\n", ""), "C53-R4")
+         sub("            elif state.identity_token is not None:\n                return state.identity_token\n", ""), "C53-R4")
 R.mutant("connection-callable-drops-shard", HS,
          sub("            return trans.connection(mapper, shard_id=shard_id)", "            return trans.connection(mapper)"), "C53-R4")
 R.mutant("get-bind-default-shard", HS,
@@ -975,3 +1034,197 @@ R.mutant("benign-choose-inline-token", HS,
 R.mutant("benign-get-bind-guard-clause", HS,
          sub("        if shard_id is None:\n            shard_id = self._choose_shard_and_assign(\n                mapper, instance=instance, clause=clause\n            )\n            assert shard_id is not None\n        return self.__shards[shard_id]\n",
              "        if shard_id is not None:\n            return self.__shards[shard_id]\n        shard_id = self._choose_shard_and_assign(\n            mapper, instance=instance, clause=clause\n        )\n        assert shard_id is not None\n        return self.__shards[shard_id]\n"), None)
+R.mutant('benign-rfI_13-identity-lookup-inverted-and-hoisted', HS,
+         sub('\n'
+             '        """\n'
+             '\n'
+             '        if identity_token is not None:\n'
+             '            obj = super()._identity_lookup(\n'
+             '                mapper,\n'
+             '                primary_key_identity,\n'
+             '                identity_token=identity_token,\n'
+             '                **kw,\n'
+             '            )\n'
+             '\n'
+             '            return obj\n'
+             '        else:\n'
+             '            for shard_id in self.identity_chooser(\n'
+             '                mapper,\n'
+             '                primary_key_identity,\n'
+             '                lazy_loaded_from=lazy_loaded_from,\n'
+             '                execution_options=execution_options,\n'
+             '                bind_arguments=dict(bind_arguments) if bind_arguments else {},\n'
+             '            ):\n'
+             '                obj2 = super()._identity_lookup(\n'
+             '                    mapper,\n'
+             '                    primary_key_identity,\n'
+             '                    identity_token=shard_id,\n'
+             '                    lazy_loaded_from=lazy_loaded_from,\n'
+             '                    **kw,\n'
+             '                )\n'
+             '                if obj2 is not None:\n'
+             '                    return obj2\n'
+             '\n'
+             '            return None\n',
+        '\n'
+             '        """\n'
+             '\n'
+             '        if identity_token is None:\n'
+             '            # no specific shard requested; ask the identity chooser which\n'
+             '            # shards may hold this primary key and search each in turn\n'
+             '            if bind_arguments:\n'
+             '                chooser_bind_arguments = dict(bind_arguments)\n'
+             '            else:\n'
+             '                chooser_bind_arguments = {}\n'
+             '\n'
+             '            candidate_shard_ids = self.identity_chooser(\n'
+             '                mapper,\n'
+             '                primary_key_identity,\n'
+             '                lazy_loaded_from=lazy_loaded_from,\n'
+             '                execution_options=execution_options,\n'
+             '                bind_arguments=chooser_bind_arguments,\n'
+             '            )\n'
+             '            for shard_id in candidate_shard_ids:\n'
+             '                found = super()._identity_lookup(\n'
+             '                    mapper,\n'
+             '                    primary_key_identity,\n'
+             '                    identity_token=shard_id,\n'
+             '                    lazy_loaded_from=lazy_loaded_from,\n'
+             '                    **kw,\n'
+             '                )\n'
+             '                if found is not None:\n'
+             '                    return found\n'
+             '\n'
+             '            return None\n'
+             '\n'
+             '        return super()._identity_lookup(\n'
+             '            mapper,\n'
+             '            primary_key_identity,\n'
+             '            identity_token=identity_token,\n'
+             '            **kw,\n'
+             '        )\n'), None)
+R.mutant('benign-rfI_14-choose-aliases-and-get-bind-early-return', HS, chain(
+    sub('            if state.key:\n'
+             '                token = state.key[2]\n'
+             '                assert token is not None\n'
+             '                return token\n'
+             '            elif state.identity_token is not None:\n'
+             '                return state.identity_token\n'
+             '\n'
+             '        assert isinstance(mapper, Mapper)\n'
+             '        shard_id = self.shard_chooser(mapper, instance, **kw)\n'
+             '        if instance is not None:\n'
+             '            state.identity_token = shard_id\n'
+             '        return shard_id\n',
+        '            identity_key = state.key\n'
+             '            if identity_key:\n'
+             '                # persistent object; the shard is part of its identity key\n'
+             '                token = identity_key[2]\n'
+             '                assert token is not None\n'
+             '                return token\n'
+             '\n'
+             '            assigned_token = state.identity_token\n'
+             '            if assigned_token is not None:\n'
+             '                # shard was already chosen for this pending object\n'
+             '                return assigned_token\n'
+             '\n'
+             '        assert isinstance(mapper, Mapper)\n'
+             '        chosen_shard_id = self.shard_chooser(mapper, instance, **kw)\n'
+             '        if instance is not None:\n'
+             '            state.identity_token = chosen_shard_id\n'
+             '        return chosen_shard_id\n'),
+    sub('        clause: Optional[ClauseElement] = None,\n'
+             '        **kw: Any,\n'
+             '    ) -> _SessionBind:\n'
+             '        if shard_id is None:\n'
+             '            shard_id = self._choose_shard_and_assign(\n'
+             '                mapper, instance=instance, clause=clause\n'
+             '            )\n'
+             '            assert shard_id is not None\n',
+        '        clause: Optional[ClauseElement] = None,\n'
+             '        **kw: Any,\n'
+             '    ) -> _SessionBind:\n'
+             '        if shard_id is not None:\n'
+             '            return self.__shards[shard_id]\n'
+             '\n'
+             '        shard_id = self._choose_shard_and_assign(\n'
+             '            mapper, instance=instance, clause=clause\n'
+             '        )\n'
+             '        assert shard_id is not None\n')), None)
+R.mutant('benign-rfI_15-explicit-shard-helper-extracted', HS, chain(
+    sub('def execute_and_instances(\n',
+        'def _explicit_shard_id(\n'
+             '    orm_context: ORMExecuteState, active_options: Any\n'
+             ') -> Optional[ShardIdentifier]:\n'
+             '    """Return the single shard id that the given execution was explicitly\n'
+             '    directed towards, or None if the execute chooser should be consulted.\n'
+             '\n'
+             '    """\n'
+             '    for orm_opt in orm_context._non_compile_orm_options:\n'
+             '        # TODO: if we had an ORMOption that gets applied at ORM statement\n'
+             '        # execution time, that would allow this to be more generalized.\n'
+             '        # for now just iterate and look for our options\n'
+             '        if isinstance(orm_opt, set_shard_id):\n'
+             '            return orm_opt.shard_id\n'
+             '\n'
+             '    if active_options and active_options._identity_token is not None:\n'
+             '        return active_options._identity_token\n'
+             '    elif "_sa_shard_id" in orm_context.execution_options:\n'
+             '        return orm_context.execution_options["_sa_shard_id"]\n'
+             '    elif "shard_id" in orm_context.bind_arguments:\n'
+             '        return orm_context.bind_arguments["shard_id"]\n'
+             '    else:\n'
+             '        return None\n'
+             '\n'
+             '\n'
+             'def execute_and_instances(\n'),
+    sub('        orm_context.update_execution_options(identity_token=shard_id)\n'
+             '        return orm_context.invoke_statement(bind_arguments=bind_arguments)\n'
+             '\n'
+             '    for orm_opt in orm_context._non_compile_orm_options:\n'
+             '        # TODO: if we had an ORMOption that gets applied at ORM statement\n'
+             '        # execution time, that would allow this to be more generalized.\n'
+             '        # for now just iterate and look for our options\n'
+             '        if isinstance(orm_opt, set_shard_id):\n'
+             '            shard_id = orm_opt.shard_id\n'
+             '            break\n'
+             '    else:\n'
+             '        if active_options and active_options._identity_token is not None:\n'
+             '            shard_id = active_options._identity_token\n'
+             '        elif "_sa_shard_id" in orm_context.execution_options:\n'
+             '            shard_id = orm_context.execution_options["_sa_shard_id"]\n'
+             '        elif "shard_id" in orm_context.bind_arguments:\n'
+             '            shard_id = orm_context.bind_arguments["shard_id"]\n'
+             '        else:\n'
+             '            shard_id = None\n',
+        '        orm_context.update_execution_options(identity_token=shard_id)\n'
+             '        return orm_context.invoke_statement(bind_arguments=bind_arguments)\n'
+             '\n'
+             '    shard_id = _explicit_shard_id(orm_context, active_options)\n')), None)
+# further benign variants of the same families (rob-I)
+R.mutant("benign-fanout-as-comprehension", HS,
+         sub("        partial = []\n" + _LOOP,
+             "        shard_ids = session.execute_chooser(orm_context)\n"
+             "        partial = [iter_for_shard(sid) for sid in shard_ids]\n"), None)
+R.mutant("benign-fanout-chooser-ids-in-local", HS,
+         sub(_LOOP, "        chosen = session.execute_chooser(orm_context)\n"
+                    "        for shard_id in chosen:\n"
+                    "            result_ = iter_for_shard(shard_id)\n"
+                    "            partial.append(result_)\n"), None)
+R.mutant("benign-per-shard-dict-display", HS,
+         sub("        bind_arguments = dict(orm_context.bind_arguments)\n        bind_arguments[\"shard_id\"] = shard_id\n",
+             "        bind_arguments = {**orm_context.bind_arguments, \"shard_id\": shard_id}\n"), None)
+R.mutant("benign-connection-callable-inverted", HS,
+         sub("        if self.in_transaction():\n            trans = self.get_transaction()\n            assert trans is not None\n            return trans.connection(mapper, shard_id=shard_id)\n        else:\n            bind = self.get_bind(\n                mapper=mapper, shard_id=shard_id, instance=instance\n            )\n\n            if isinstance(bind, Engine):\n                return bind.connect(**kw)\n            else:\n                assert isinstance(bind, Connection)\n                return bind\n",
+             "        if not self.in_transaction():\n            bind = self.get_bind(\n                mapper=mapper, shard_id=shard_id, instance=instance\n            )\n\n            if not isinstance(bind, Engine):\n                assert isinstance(bind, Connection)\n                return bind\n            return bind.connect(**kw)\n\n        trans = self.get_transaction()\n        assert trans is not None\n        return trans.connection(mapper, shard_id=shard_id)\n"), None)
+R.mutant("benign-identity-lookup-miss-continues", HS,
+         sub("                if obj2 is not None:\n                    return obj2\n", "                if obj2 is None:\n                    continue\n                return obj2\n"), None)
+# the comprehension / helper forms must still be judged
+R.mutant("fanout-comprehension-filters-shards", HS,
+         sub("        partial = []\n" + _LOOP,
+             "        partial = [iter_for_shard(sid) for sid in session.execute_chooser(orm_context) if sid]\n"), "C53-R1")
+R.mutant("explicit-shard-helper-ignores-identity-token", HS, chain(
+    sub("    for orm_opt in orm_context._non_compile_orm_options:\n        # TODO: if we had an ORMOption that gets applied at ORM statement\n        # execution time, that would allow this to be more generalized.\n        # for now just iterate and look for our options\n        if isinstance(orm_opt, set_shard_id):\n            shard_id = orm_opt.shard_id\n            break\n    else:\n        if active_options and active_options._identity_token is not None:\n            shard_id = active_options._identity_token\n        elif \"_sa_shard_id\" in orm_context.execution_options:\n            shard_id = orm_context.execution_options[\"_sa_shard_id\"]\n        elif \"shard_id\" in orm_context.bind_arguments:\n            shard_id = orm_context.bind_arguments[\"shard_id\"]\n        else:\n            shard_id = None\n",
+        "    shard_id = _explicit_shard_id(orm_context)\n"),
+    sub("def execute_and_instances(\n",
+        "def _explicit_shard_id(orm_context):\n    for orm_opt in orm_context._non_compile_orm_options:\n        if isinstance(orm_opt, set_shard_id):\n            return orm_opt.shard_id\n    if \"_sa_shard_id\" in orm_context.execution_options:\n        return orm_context.execution_options[\"_sa_shard_id\"]\n    elif \"shard_id\" in orm_context.bind_arguments:\n        return orm_context.bind_arguments[\"shard_id\"]\n    return None\n\n\ndef execute_and_instances(\n")), "C53-R3")
